@@ -57,7 +57,7 @@ CONSTANTS
   DocFlags,      \* doc-level flags allowed to be 1: subset of {"ds","de","zi","cmp","fsp"}
   Avoid,         \* known loader / validator defects (known_findings.d/C14.json, C18.json) whose
                  \* trigger is NOT generated, so that larger random documents are not all masked
-                 \* by them: subset of {"K1","K2","V1"}; {} in the exhaustive small-scope runs
+                 \* by them: subset of {"K1","K2","V1","V2"}; {} in the exhaustive small-scope runs
   Sim            \* TRUE under -simulate: every choice inside an action is drawn at random
                  \* (one successor per action kind), so random walks are cheap and the tree
                  \* shape is not dominated by the many scalar alternatives
@@ -235,6 +235,16 @@ CompactDedent(ns) ==
            vals == IF ns[c].k = "seq" THEN kids ELSE [j \in 1..(Len(kids) \div 2) |-> kids[2 * j]]
        IN \E j \in 1..(Len(vals) - 1) : ns[vals[j]].k \in {"map", "seq"} /\ ns[vals[j]].st = "block"
 
+\* V2: a block mapping whose first key carries an anchor (its first line starts with `&`, which
+\* the validator does not take as establishing the mapping's level) and in which an entry other
+\* than the last has a block collection as its value
+AnchoredFirstKey(ns) ==
+  \E c \in 1..Len(ns) :
+    /\ ns[c].k = "map" /\ ns[c].st = "block"
+    /\ LET kids == KidsOf(ns, c)
+       IN /\ Len(kids) >= 4 /\ ns[kids[1]].an = 1
+          /\ \E j \in 1..((Len(kids) \div 2) - 1) : ns[kids[2 * j]].k \in {"map", "seq"} /\ ns[kids[2 * j]].st = "block"
+
 Cms(isBlockColl) == IF InFlow \/ Role = "key" \/ (Role = "root" /\ isBlockColl) THEN {0} ELSE {0, 1, 2}
 Pres == IF InFlow \/ Role \notin {"key", "item"} THEN {0}
         ELSE IF AfterKeep THEN {0, 2, 3} ELSE {0, 1, 2, 3}
@@ -324,6 +334,7 @@ EndDoc ==
        LET cost == (IF docs # <<>> THEN 0 ELSE ds) + de + zi + cmp + fsp + (IF w = MinIndent THEN 0 ELSE 1)
        IN /\ cost <= Budget
           /\ ("V1" \in Avoid /\ cmp = 1 => ~CompactDedent(nodes))
+          /\ ("V2" \in Avoid => ~AnchoredFirstKey(nodes))
           /\ dec' = dec + cost
           /\ docs' = Append(docs, [nodes |-> nodes, used |-> Used,
                                    o |-> [ds |-> ds, de |-> de, w |-> w, zi |-> zi, cmp |-> cmp, fsp |-> fsp]])
